@@ -17,6 +17,10 @@ import (
 
 func (ex *Exec) newDrawVar(op, label string, s smt.Sort, lo, hi *big.Int) *smt.Term {
 	name := fmt.Sprintf("%s#%d:%s", label, len(ex.draws), op)
+	if lo != nil && hi != nil && (op == "decimal" || op == "int") {
+		// the range is part of the variable's identity: the same label may be drawn with another range on another path
+		name += fmt.Sprintf("[%s..%s]", lo, hi)
+	}
 	v := ex.b.Var(name, s, lo, hi)
 	if ex.solver != nil {
 		ex.solver.AssertRange(v)
@@ -169,14 +173,20 @@ func (ex *Exec) callIntrinsic(fr *frame, pos token.Pos, fn *ssa.Function, args [
 		return ex.drawString(label, n)
 	case "NondetStringN":
 		return ex.drawString(ex.labelOf(args[0]), ex.concreteInt(args[1], "NondetStringN n"))
-	case "NondetDecimal":
+	case "NondetDecimal", "NondetDecimalDigits":
 		label := ex.labelOf(args[0])
 		scale := ex.concreteInt(args[1], "NondetDecimal scale")
+		var dlo, dhi *big.Int
+		if name == "NondetDecimalDigits" {
+			dhi = new(big.Int).Exp(big.NewInt(10), big.NewInt(int64(ex.concreteInt(args[2], "NondetDecimalDigits digits"))), nil)
+			dhi.Sub(dhi, big.NewInt(1))
+			dlo = new(big.Int).Neg(dhi)
+		}
 		if fd := ex.fixedDraw("decimal"); fd != nil {
 			ex.draws = append(ex.draws, Draw{Op: "decimal", Label: label, N: scale})
 			return ex.mkDecimal(b.Int(bigOf(fd.V)), -scale)
 		}
-		v := ex.newDrawVar("decimal", label, smt.SInt, nil, nil)
+		v := ex.newDrawVar("decimal", label, smt.SInt, dlo, dhi)
 		ex.draws = append(ex.draws, Draw{Op: "decimal", Label: label, N: scale, vars: []*smt.Term{v}})
 		return ex.mkDecimal(v, -scale)
 	case "Choose":
@@ -252,6 +262,9 @@ func (ex *Exec) callIntrinsic(fr *frame, pos token.Pos, fn *ssa.Function, args [
 		return b.I64(int64(ex.nowCalls))
 	case "SplitCalendar":
 		ex.splitCalendar = true
+		return nil
+	case "ExactFloat":
+		ex.exactFloat = true
 		return nil
 	case "IgnorePanics":
 		ex.lim.NoPanicCheck = true
